@@ -76,8 +76,8 @@ def run(ctx):
                 ctx.broken.append(dict(kind="correspondence", what="protocol model and implementation disagree",
                                        detail=json.dumps([[cells[i][0], cells[i][1][:3]] for i in mism[:5]])))
     ctx.cov.update(evaluations=len(obs) + len(pobs), distinct_nontrivial=len(cells) + len(pcells), exhaustive=True,
-                   rule="every (non-literal scalar class | collection class) x 29 Python constructs over 5 routes (truth, chained "
-                        "comparison, min/max/sorted, membership/equality, iteration) x provenances (input, operation result, "
+                   rule="every (non-literal scalar class | collection class) x 34 Python constructs over 5 routes (truth, chained "
+                        "comparison, min/max/sorted, membership by equality or by hashing, iteration) x provenances (input, operation result, "
                         "function parameter, n-tuple element, object field) on real objects; distinct = (class, route) cells",
                    samples=[dict(cls=c, route=r, observations=v[:3]) for (c, r), v in cells[:3]],
                    traces_validated_against_impl=len(cells))
